@@ -202,8 +202,16 @@ def replay_projector(inputs):
         return True, "precondition"
     P = np.eye(dim) - np.outer(k, k) / (k @ k)
     r = so.summate_incompr(k[:, None], np.array([1.0]), np.array([0.0]), np.zeros((dim, 1)))
-    ok = np.allclose(P @ P, P) and np.allclose(r[:, 0], P[:, 0], rtol=1e-12, atol=1e-14)
-    return bool(ok), f"k={k.tolist()} kernel={r[:, 0].tolist()} P e1={P[:, 0].tolist()}"
+    # the .pyx source interpreted concretely (the compiled artefact cannot be rebuilt from an edited source here)
+    from .. import kernel
+    from .c15 import PYX, A
+
+    I = kernel.load(PYX["summator"], concrete=True)
+    rs = np.array(I.call("summate_incompr", [A(k[:, None]), A([1.0]), A([0.0]), A(np.zeros((dim, 1))), None]).tolist()).reshape(dim, 1)
+    ok_art = np.allclose(r[:, 0], P[:, 0], rtol=1e-12, atol=1e-14)
+    ok_src = np.allclose(rs[:, 0], P[:, 0], rtol=1e-12, atol=1e-14)
+    ok = np.allclose(P @ P, P) and ok_art and ok_src
+    return bool(ok), f"k={k.tolist()} compiled kernel={r[:, 0].tolist()} source semantics={rs[:, 0].tolist()} P e1={P[:, 0].tolist()} (artefact ok={ok_art}, source ok={ok_src})"
 
 
 REPLAY = {"divergence": replay_divergence, "projector": replay_projector}
